@@ -374,7 +374,27 @@ def check_c09(prop, tier):
         lines = [l for l in open(out, errors='replace') if l.startswith('"{')]
         os.unlink(out)
         pick = rnd.sample(lines, min(len(lines), 1500 if tier == 'quick' else 15000))
-        sjobs = []
+        # ... and two-patch series with -R entries (a reversed creation deletes what an earlier push created, a reversed
+        # deletion re-creates): the split is between the two patches
+        out, st3 = p_tool.enumerate_scenarios(res, 'split-scenarios-reverse', 'TreesSmall', 'TRUE', 2, 'Cfgs_one', work, 'TRUE')
+        rlines = [l for l in open(out, errors='replace') if l.startswith('"{') and '\\"rev\\":true' in l]
+        os.unlink(out)
+        pick += rnd.sample(rlines, min(len(rlines), 1200 if tier == 'quick' else 15000))
+        # series in which a directory exists only in between (made for a file an early patch creates, emptied by a later
+        # one): pushed at once it never reaches the disk, pushed in pieces it is made and has to be removed again
+        def transient_dir(sc):
+            ex = [any(t[p_]['ex'] for p_ in ('d/c', 'd/e')) for t in sc['prefixTrees']]
+            return not ex[0] and any(ex) and not ex[-1]
+        forced = []
+        for l in rlines:
+            if '\\"new\\":\\"d/e\\"' in l or '\\"new\\":\\"d/c\\"' in l:
+                sc = json.loads(json.loads(l))
+                if not sc['outs'][0]['out']['adversarial'] and transient_dir(sc):
+                    forced.append(sc)
+        if len(forced) > (300 if tier == 'quick' else 3000):
+            forced = rnd.sample(forced, 300 if tier == 'quick' else 3000)
+        sjobs = [(sc, [['1'], ['-a']], 1 + i % 2, i % 2) for i, sc in enumerate(forced)]
+        nforced = len(sjobs)
         for li, line in enumerate(pick):
             sc = json.loads(json.loads(line))
             if sc['outs'][0]['out']['adversarial']:
@@ -387,7 +407,7 @@ def check_c09(prop, tier):
             for cat, msg in probs:
                 nb += 1
                 res.violation('split:' + cat, 'a push split into %s differs from the single push -a: %s' % (plan, msg), {'tree0': sc['tree0'], 'series': sc['series'], 'plan': plan, 'threads': threads})
-        res.cov['parts']['split-scenarios'].update({'scenarios': len(sjobs), 'bad': nb})
+        res.cov['parts']['split-scenarios'].update({'scenarios': len(sjobs), 'with_transient_directory': nforced, 'bad': nb})
         res.cov['traces_validated_against_impl'] += len(sjobs)
         ninv = sum(len(c['plan']) for c in cases)
         res.cov['parts']['sessions'] = {'sessions': len(cases), 'invocations': ninv, 'with_failure': sum(1 for c in cases if c['fail']),
